@@ -380,7 +380,8 @@ OpStep(e) ==
              \cup {<<"findability invariant violated on the observed state: " \o m, opp \cup KindProp(hd.kind)>> : m \in invFind}
              \cup (IF ~chkRet THEN {<<"result differs from the abstract specification", opp>>} ELSE {})
              \cup (IF ~chkAbs THEN {<<"contents differ from the abstract specification", opp>>} ELSE {})
-             \cup (IF ~chkDrops THEN {<<"dropped elements differ from the abstract specification", {"C03", "C04"}>>} ELSE {})
+             \cup (IF ~chkDrops THEN {<<"dropped elements differ from the abstract specification",
+                                        {"C03", "C04"} \cup (IF e.op \in ParOps THEN {"C19"} ELSE {}) \cup (IF e.op \in {"serde_de", "serde_de_in_place"} THEN {"C20"} ELSE {})>>} ELSE {})
              \cup (IF ~chkFresh THEN {<<"an object created during the call is neither stored nor dropped (leak)", {"C03", "C04"} \cup opp>>} ELSE {})
              \cup (IF ~chkLen THEN {<<"len()/capacity() contract", {"C08"} \cup opp>>} ELSE {})
              \cup (IF ~chkAlloc THEN {<<"allocator ledger / allocation_size (size or alignment of a live block differs from the table layout)",
